@@ -710,7 +710,31 @@ func (g *gen) expel() {
 // GenCase draws a prior state and 1..maxOps proposal operations plus 0..3
 // expel operations for the INIT voteproof.
 func GenCase(env *Env, rng *rand.Rand, maxMembers, maxOps int) *Case {
-	p := GenPrior(env, rng, maxMembers)
+	return GenOps(env, rng, GenPrior(env, rng, maxMembers), maxOps)
+}
+
+// AtHeight copies the prior state for another block height (same suffrage,
+// candidates and policy states; a fresh previous manifest).
+func (p *Prior) AtHeight(h base.Height, rng *rand.Rand) *Prior {
+	np := *p
+	np.Height = h
+
+	rh := func() util.Hash {
+		b := make([]byte, 32)
+		for i := range b {
+			b[i] = byte(rng.Intn(256))
+		}
+
+		return valuehash.NewSHA256(b)
+	}
+
+	np.Previous = isaac.NewManifest(h-1, rh(), rh(), rh(), rh(), p.SufState.Hash(), localtime.Now().UTC())
+
+	return &np
+}
+
+// GenOps draws one block of operations over a given prior state.
+func GenOps(env *Env, rng *rand.Rand, p *Prior, maxOps int) *Case {
 	c := &Case{Env: env, Prior: p}
 	g := &gen{env: env, p: p, rng: rng, c: c}
 
